@@ -9,6 +9,7 @@ import EaselModel.Sqio.Fold
 import EaselModel.Sqio.ReadInfo
 import EaselModel.Sqio.ParseFasta
 import EaselModel.Sqio.Totality
+import EaselModel.Sqio.SpecFasta
 /-! # C04 — all ways of reading a sequence file agree with each other and with the file
 
 Property theorems only (proofs are glue on `Sqio/Windows.lean`, `Sqio/Refine.lean`, `Sqio/Spec.lean`).
@@ -18,11 +19,13 @@ sqascii_Read ReadInfo ReadSequence ReadWindow Position WriteFasta`, read-block s
 Full statement (DESIGN §5 C04): block-size independence of the block reader (= `parseFasta`), field-by-field agreement of
 Read / ReadInfo / ReadSequence, true byte offsets, forward windows tile with context `min(C,·)` and 1-based contiguous
 coordinates, reverse strand = reverse complement tiled the same way, independence of line layout, `read (WriteFasta r) = r`.
-Proved here for every input: the window schedule (forward and reverse) that `sqascii_ReadWindow` computes tiles `1..L`
-(`fwd_windows_tile`, `rev_windows_tile`); the byte stream seen through `nextchar` does not depend on the block size; the two
-single-step facts behind Read / ReadInfo agreement; `header_fasta` returns the same record fields for every pair of block sizes
-(simulation invariant); `seebuf` is a byte fold and buffer cuts are invisible to it; the remaining clauses are tied by the exact differential run against the
-implementation and by the agreement monitors (see `props/c04.py`), and are listed `_partial` where a weaker theorem stands in. -/
+Proved here for every byte string and every read-block size `B ≥ 1` (FASTA): reading with `sqascii_Read` until the first non-OK
+status returns exactly the records and final status of the declarative parser `specFasta` (`read_all_eq_specFasta`; name,
+description, residues, true `roff` / `hoff` / `doff` / `eoff`, `L`), hence is block-size independent; `Read`, `ReadInfo`,
+`ReadSequence` agree field by field (`read_readInfo_readSequence_agree`); the forward `ReadWindow` series delivers the residues of
+`Read` (`windows_concat_eq_read`, see the section at the end); the window schedule (forward and reverse) tiles `1..L`
+(`fwd_windows_tile`, `rev_windows_tile`). Still tied by the exact differential run + monitors only: the line-based formats,
+reverse-strand windows end to end, `ReadBlock`, write + re-read (`writeFasta_keeps_residues_partial` is the residue-level part). -/
 namespace EaselModel.Props.C04
 open EaselModel.Sqio EaselModel.Sqio.Windows
 
@@ -65,17 +68,16 @@ theorem addbuf_moves_only_bpos (a : Ascii) (sq : Sq) (n : Nat) : ∃ b, (addbuf 
   Agree.addbuf_handle a sq n
 
 /-- **Read vs ReadInfo, step 2**: the next `loadbuf` does not depend on the buffer position (block mode), so the storing and the
-    counting scan see the same next block, offsets and end of data.
-    `read_readinfo_agree_partial`: the loop-level statement (same status, epos, L, eoff) is tied by the differential run. -/
-theorem loadbuf_ignores_bpos_partial (a : Ascii) (b : Nat) (hb : a.linebased = false) :
+    counting scan see the same next block, offsets and end of data. (The loop-level and call-level statements are
+    `residue_loop_closed_form` and `read_readInfo_readSequence_agree` below.) -/
+theorem loadbuf_ignores_bpos (a : Ascii) (b : Nat) (hb : a.linebased = false) :
     loadbuf { a with bpos := b } = loadbuf a := Agree.loadbuf_bpos a b hb
 
 /-- **Block-size independence of the byte stream** (the refinement "bytes + cursor" for the primitive every header parser is
     written with): for every `B ≥ 1`, `nextchar` delivers `file[pos+1]` and moves the cursor by one, or reports EOF exactly at the
-    end of the file; where the block boundaries fall is invisible.
-    `block_size_independence_partial`: the corollary for whole records (`Read = parseFasta` for every `B`) is tied by the
-    differential run over B ∈ {1,2,3,7,64,4096,random}. -/
-theorem nextchar_block_size_independent_partial (a : Ascii) (c : UInt8) (h : Refine.WF a) (hb : a.bpos < a.nc) :
+    end of the file; where the block boundaries fall is invisible. (The corollary for whole records is `read_all_eq_specFasta` /
+    `read_all_block_size_independent` below.) -/
+theorem nextchar_block_size_independent (a : Ascii) (c : UInt8) (h : Refine.WF a) (hb : a.bpos < a.nc) :
     ((nextchar a c).2.1 = .ok ∧ Refine.pos (nextchar a c).1 = Refine.pos a + 1 ∧
         a.file[(Refine.pos a + 1).toNat]? = some (nextchar a c).2.2) ∨
     ((nextchar a c).2.1 = .eof ∧ Refine.pos a + 1 = a.file.size) := by
@@ -116,10 +118,9 @@ theorem seebuf_is_byte_fold (a : Ascii) (maxn : Option Nat) (hr : ∀ i, i < a.n
   Fold.seebuf_fold a maxn hr hok
 
 /-- **Where a buffer ends is invisible to the data scan**: folding over `l₁ ++ l₂` is folding over `l₁` and, unless that stopped or
-    reached the residue limit, continuing over `l₂` with the state reached.
-    `read_block_size_independent_partial`: the composition of this with the buffer loop of `sqascii_Read` (residues appended, `L`,
-    `eoff`) into "Read returns the same record for every B" is tied by the differential run over B ∈ {1,2,3,7,64,4096,random}. -/
-theorem buffer_cut_invisible_partial (inmap : Bytes) (maxn : Nat) (l1 l2 : List UInt8) (s : Fold.SS) (k : Nat) :
+    reached the residue limit, continuing over `l₂` with the state reached. (Composed with the buffer loop of `sqascii_Read` in
+    `residue_loop_closed_form` / `read_all_block_size_independent` below.) -/
+theorem buffer_cut_invisible (inmap : Bytes) (maxn : Nat) (l1 l2 : List UInt8) (s : Fold.SS) (k : Nat) :
     Fold.scanBytes inmap maxn (l1 ++ l2) s k =
       (if (Fold.scanBytes inmap maxn l1 s k).2.2 = .ok ∧ (Fold.scanBytes inmap maxn l1 s k).2.1 = k + l1.length then
          Fold.scanBytes inmap maxn l2 (Fold.scanBytes inmap maxn l1 s k).1 (k + l1.length)
@@ -261,6 +262,29 @@ open EaselModel.Sqio.ParseFasta in
 theorem read_all_block_size_independent (bytes : Bytes) (B1 B2 abc : Nat) (h1 : 1 ≤ B1) (h2 : 1 ≤ B2) (habc : abc ∈ [0, 1, 2, 3]) :
     readAllM (bytes.size + 2) (openFasta bytes B1 abc) (freshSq abc) = readAllM (bytes.size + 2) (openFasta bytes B2 abc) (freshSq abc) :=
   ParseFasta.read_all_block_size_independent bytes B1 B2 abc h1 h2 habc
+
+open EaselModel.Sqio.ParseFasta EaselModel.Sqio.SpecFasta in
+/-- **The whole reader = the declarative parser `specFasta`, for EVERY byte string and EVERY block size `B ≥ 1`.** `specFasta abc bytes`
+    (`Sqio/SpecFasta.lean`, 30 lines: `dropWhile` / `takeWhile` / `filter` on the list of file bytes, offsets = `size − bytes remaining`)
+    returns `List Record × Status`; a `Record` is name, description, residues, `roff`, `hoff`, `doff`, `eoff`, `L`. Reading with
+    `sqascii_Read` from `esl_sqfile_Open` on until the first non-`eslOK` status returns exactly these records and this final status. -/
+theorem read_all_eq_specFasta (bytes : Bytes) (B abc : Nat) (hB : 1 ≤ B) (habc : abc ∈ [0, 1, 2, 3]) :
+    ((readAllM (bytes.size + 2) (openFasta bytes B abc) (freshSq abc)).1.map toRecord,
+     (readAllM (bytes.size + 2) (openFasta bytes B abc) (freshSq abc)).2) = specFasta abc bytes.toList :=
+  SpecFasta.read_all_eq_specFasta bytes B abc hB habc
+
+open EaselModel.Sqio.SpecFasta in
+/-- sanity of `specFasta` on a CRLF file with a blank-led header and an empty record (`" >a  d1\r\nAC GT\r\nAC\r\n\r\n>b\r\n>c x\r\nacgtn*\r\n"`,
+    text mode): three records, the offsets are the true byte positions (`hoff` on the `\r`, `doff` on the first data byte, `eoff` on the
+    last `\n` before the next `>`) -/
+example :
+    let r := specFasta 0 [32, 62, 97, 32, 32, 100, 49, 13, 10, 65, 67, 32, 71, 84, 13, 10, 65, 67, 13, 10, 13, 10, 62, 98, 13, 10, 62, 99,
+                          32, 120, 13, 10, 97, 99, 103, 116, 110, 42, 13, 10]
+    r.1.map (·.name) = [[97], [98], [99]] ∧ r.1.map (·.desc) = [[100, 49], [], [120]] ∧
+    r.1.map (·.seq) = [[65, 67, 71, 84, 65, 67], [], [97, 99, 103, 116, 110, 42]] ∧
+    r.1.map (·.roff) = [1, 22, 26] ∧ r.1.map (·.hoff) = [7, 24, 30] ∧ r.1.map (·.doff) = [9, 26, 32] ∧ r.1.map (·.eoff) = [21, 25, 39] ∧
+    r.1.map (·.L) = [6, 0, 6] ∧ r.2 = Status.eof := by
+  decide +kernel
 
 open EaselModel.Sqio.Cursor EaselModel.Sqio.ReadSpec EaselModel.Sqio.InfoSeqSpec in
 /-- **`sqascii_ReadInfo` = `infoL` on the remaining file bytes, for every `B ≥ 1`** (the closed form of the info-only call) -/
